@@ -107,6 +107,16 @@ Injections(m) ==
     \cup (IF HasComp(m, "c3") THEN {Inj("unreachable: grandparent - grandchild", {"MAP_VARIABLES_ELEMENT"}, EquivM(0, 1, IdxOfComp(m, "c3") - 1, 1)),
                                     Inj("unreachable: cousin", {"MAP_VARIABLES_ELEMENT"}, EquivM(IdxOfComp(m, "d1") - 1, 1, IdxOfComp(m, "c3") - 1, 1))}
           ELSE {})
+\* a fault that lies in the context, not in the text, of a piece of math: d1 is first given (pre, still valid) the very math text of
+\* c1, then the variable that text names is renamed in d1 - the same text is valid in c1 and names no variable in d1
+ContextInjections(m) ==
+    IF m.comps[1].math = NoneS \/ ~HasComp(m, "d1") THEN {} ELSE
+    {[name |-> "math valid elsewhere: ci names no variable here", acc |-> {"MATH_CI_VARIABLE_REFERENCE"},
+      pre |-> SetM(TComp(IdxOfComp(m, "d1")), "math", m.comps[1].math), mut |-> SetM(TVar(IdxOfComp(m, "d1"), 2), "name", "yy")]}
+    \cup (IF HasComp(m, "c2") /\ m.comps[IdxOfComp(m, "c2")].math # NoneS
+          THEN {[name |-> "math valid in a child: ci names no variable here", acc |-> {"MATH_CI_VARIABLE_REFERENCE"},
+                 pre |-> SetM(TComp(IdxOfComp(m, "d1")), "math", m.comps[IdxOfComp(m, "c2")].math), mut |-> SetM(TVar(IdxOfComp(m, "d1"), 3), "name", "zz")]}
+          ELSE {})
 \* duplicated ids: the id of one item copied onto an item of another kind (models generated with ids everywhere)
 DuplicateIdInjections(m) ==
     IF m.id = NoneS THEN {} ELSE
